@@ -224,6 +224,13 @@ where
 
         {
             let mut guard = self.group.write();
+
+            // Another task may have created the keyspace while we were spawning our actor.
+            // A keyspace must only ever have one state, so the first binding wins.
+            if let Some(existing) = guard.get(&name) {
+                return existing.clone();
+            }
+
             guard.insert(name.clone(), state.clone());
         }
 
